@@ -286,6 +286,11 @@ def _history(ctx, m, al_cls):
                 ("set_start", lambda it: [DT("utc", 11, None)]),
                 ("set_end", lambda it: [DT("utc", 21, None)]),
                 ("add_alarm", lambda it: [extra_alarm(it)])]
+    # withdrawing a setting (None) after it was set and read: nothing of the old setting may stay
+    withdraw = [("acknowledge_until(t), read, acknowledge_until(None)", "acknowledge_until", DT("utc", 40, None)),
+                ("snooze_until(t), read, snooze_until(None)", "snooze_until", DT("utc", 50, None)),
+                ("acknowledge_until(t) + snooze_until(u), read, snooze_until(None)", "snooze_until", DT("utc", 50, None)),
+                ("acknowledge_until(t) + snooze_until(u), read, acknowledge_until(None)", "acknowledge_until", DT("utc", 40, None))]
 
     def observe(it, alarms):
         out = []
@@ -330,6 +335,33 @@ def _history(ctx, m, al_cls):
                   f"after .times/.active were read, {name} gives times/active {got}; an object that was "
                   f"never read gives {want} (a stale cached result)", al_cls.loc(),
                   detail="same as on a fresh object")
+
+
+    for name, meth, val in withdraw:
+        both = name.startswith("acknowledge_until(t) + ")
+        try:
+            res = []
+            for read_between in (True, False):
+                it = Interp(m)
+                a = fresh(it)
+                if both:
+                    it.call(it.getattr(a, "acknowledge_until"), [DT("utc", 40, None)], {})
+                    it.call(it.getattr(a, "snooze_until"), [DT("utc", 50, None)], {})
+                else:
+                    it.call(it.getattr(a, meth), [val], {})
+                if read_between:
+                    observe(it, a)
+                it.call(it.getattr(a, meth), [None], {})
+                res.append(observe(it, a))
+        except AbsRaise as e:
+            ctx.fail("C15/HISTORY", name, f"raises {e.cls_name}", al_cls.loc())
+            continue
+        except Unsupported as e:
+            raise AnalysisError(f"Alarms history check leaves the abstract interface ({name}): {e}")
+        ctx.check(res[0] == res[1], "C15/HISTORY", name,
+                  f"{name}: times/active are {res[0]}; without the read in between they are {res[1]} "
+                  f"(the withdrawn setting is still applied: a stale cached result)", al_cls.loc(),
+                  detail="same as without the read")
 
 
 def _retained(ctx, m, al_cls):
